@@ -565,21 +565,30 @@ def do_prescreen(spec, out):
             progress.write("%8d %4d\n" % (fam["id"], n))
             progress.flush()
             best = None
-            for rep in range(2):
+            for rep in range(3):
                 t0 = time.perf_counter_ns()
                 if guarded(fn, s, STALL_CPU_S):
                     stalls.append({"id": fam["id"], "input": s, "cpu_s": STALL_CPU_S})
+                    best = STALL_CPU_S * 1e9
+                    break
                 dt = time.perf_counter_ns() - t0
                 best = dt if best is None or dt < best else best
-                if dt > limit_ns:
+                # one slow sample is an outlier (scheduler, allocator, GC) until a second sample is slow too
+                if rep >= 1 and (best > limit_ns or best < limit_ns / 20):
                     break
             times[n] = best
             worst = max(worst, best)
             if best > limit_ns:
                 break
         sus = 0.0
-        if worst > limit_ns:
-            sus = 1000.0 + worst / 1e6
+        first = max(times.get(4) or 1, 1000)
+        growth = worst / float(first)
+        if worst > limit_ns and growth > 3.0:
+            # slow AND growing: ranked by how much it grew over the sizes stepped (a call that is merely slow at every
+            # size - loading a whole document - is not a candidate: its cost does not follow the pumped length)
+            sus = 1000.0 + min(growth, 1e6)
+        elif worst > limit_ns:
+            sus = 0.0
         else:
             if 16 in times and 32 in times and times[32] > 20000:
                 sus = max(sus, times[32] / max(times[16], 1))
